@@ -14,6 +14,7 @@ type group struct {
 	start, end int
 	read       bool          // GET / HEAD offered to mirrors: clause (5) applies
 	called     time.Duration // L1: harness clock when the request was handed to the client (0 = unknown)
+	taint      bool          // the request's context ended: it may have left a transport error booked on a host without any log entry
 }
 
 // analysis options
@@ -80,15 +81,22 @@ func (w *world) analyseLog(es []*rm.Entry, o logOpts) []*evid.Violation {
 		}
 		return s
 	}
-	gAt := map[int]group{}
+	gAt := map[int][]group{}
 	for _, g := range o.groups {
-		gAt[g.start] = g
+		gAt[g.start] = append(gAt[g.start], g) // (a request that sent nothing shares its index with the next one)
 	}
 	timingOff := false // set once a request went to a URL that bypasses per-host accounting
 	for i, e := range es {
-		if g, ok := gAt[i]; ok && g.read && g.end > g.start {
-			for _, v := range w.checkOrder(es[g.start:g.end], st, timingOff, g.called) {
-				add(v)
+		for _, g := range gAt[i] {
+			if g.read && g.end > g.start {
+				for _, v := range w.checkOrder(es[g.start:g.end], st, timingOff, g.called) {
+					add(v)
+				}
+			}
+			if g.taint {
+				for _, n := range w.names {
+					get(n).dirty = true
+				}
 			}
 		}
 		if _, known := w.spec[e.Host]; !known {
@@ -208,14 +216,17 @@ func (w *world) checkOrder(lr []*rm.Entry, st map[string]*hostState, timingOff b
 			if pb, ok := pos[b]; b == a || (ok && pb < i) {
 				continue
 			}
+			if lr[0].Method == "HEAD" && w.spec[b].NoHead {
+				continue // configured not to receive HEAD requests
+			}
 			// a was contacted before b (or b never)
 			if clean(a) && clean(b) {
 				if w.prio(b) > w.prio(a) {
 					out = append(out, evid.V("mirror-order-not-descending-priority", "read %s %s: first contacts %s; %s (priority %d) was tried before %s (priority %d) although neither host had failed before",
-						lr[0].Method, lr[0].Path, desc(), short(a), w.prio(a), short(b), w.prio(b)))
+						lr[0].Method, w.normPath(lr[0]), desc(), short(a), w.prio(a), short(b), w.prio(b)))
 				} else if w.prio(b) == w.prio(a) && a == upName {
 					out = append(out, evid.V("upstream-before-equal-priority-mirror", "read %s %s: first contacts %s; the named registry was tried before mirror %s of the same priority %d",
-						lr[0].Method, lr[0].Path, desc(), short(b), w.prio(a)))
+						lr[0].Method, w.normPath(lr[0]), desc(), short(b), w.prio(a)))
 				}
 			}
 			// (5b') the very first contact is a host whose server-requested delay (>= 1 s, valid
@@ -227,7 +238,7 @@ func (w *world) checkOrder(lr []*rm.Entry, st map[string]*hostState, timingOff b
 				if called+sa.lastRA*3/4 < sa.lastFail.Done+sa.lastRA {
 					out = append(out, evid.V("retry-after-host-tried-first-while-others-available", "read %s %s: first contacts %s; %s answered request #%d with Retry-After %v at %v; this request was handed to the client at %v (%v of the delay left), "+
 						"%s never failed, yet the client waited for %s and contacted it first (arrival %v)",
-						lr[0].Method, lr[0].Path, desc(), short(a), sa.lastFail.Seq, sa.lastRA, sa.lastFail.Done, called, sa.lastFail.Done+sa.lastRA-called, short(b), short(a), aFirst))
+						lr[0].Method, w.normPath(lr[0]), desc(), short(a), sa.lastFail.Seq, sa.lastRA, sa.lastFail.Done, called, sa.lastFail.Done+sa.lastRA-called, short(b), short(a), aFirst))
 				}
 			}
 			// (5b) a is certainly inside its back-off window when the order was decided, b never failed
@@ -246,7 +257,7 @@ func (w *world) checkOrder(lr []*rm.Entry, st map[string]*hostState, timingOff b
 				if aFirst < sa.lastFail.Done+win {
 					out = append(out, evid.V(sig, "read %s %s: first contacts %s; %s failed request #%d (%s) at %v and has to be backed off from for at least %v, the order of this request was decided before %v (arrival of its first attempt), "+
 						"yet %s was tried before %s, which never failed",
-						lr[0].Method, lr[0].Path, desc(), short(a), sa.lastFail.Seq, sa.lastFail.Fault, sa.lastFail.Done, win, aFirst, short(a), short(b)))
+						lr[0].Method, w.normPath(lr[0]), desc(), short(a), sa.lastFail.Seq, sa.lastFail.Fault, sa.lastFail.Done, win, aFirst, short(a), short(b)))
 				}
 			}
 		}
